@@ -128,7 +128,7 @@ func consumeNumber(data []byte, pos int, isFlag bool) int {
 			}
 			// else continue: floating point
 			seenDot = true
-		case '-':
+		case '-', '+':
 			// new number, expected on exponents
 			if data[pos-1] == 'e' || data[pos-1] == 'E' {
 				continue
